@@ -166,16 +166,16 @@ func headersOf(x any) cose.Headers {
 		return h
 	}
 	v := x.(map[string]any)
-	if p, ok := v["P"]; ok && p != nil {
+	if p, ok := v["P"]; ok && p != nil && v["Pnil"] != true {
 		h.Protected = cose.ProtectedHeader(bucketOf(p))
 	}
-	if u, ok := v["U"]; ok && u != nil {
+	if u, ok := v["U"]; ok && u != nil && v["Unil"] != true {
 		h.Unprotected = cose.UnprotectedHeader(bucketOf(u))
 	}
-	if r, ok := v["rawP"]; ok && r != nil {
+	if r, ok := v["rawP"]; ok && r != nil && len(bytesOf(r)) > 0 {
 		h.RawProtected = bytesOf(r)
 	}
-	if r, ok := v["rawU"]; ok && r != nil {
+	if r, ok := v["rawU"]; ok && r != nil && len(bytesOf(r)) > 0 {
 		h.RawUnprotected = bytesOf(r)
 	}
 	return h
@@ -283,11 +283,7 @@ func project(x any) any {
 	case []*cose.Countersignature:
 		xs := make([]any, len(v))
 		for i, e := range v {
-			if e == nil {
-				xs[i] = nil
-			} else {
-				xs[i] = projectSig((*cose.Signature)(e))
-			}
+			xs[i] = projectSig((*cose.Signature)(e))
 		}
 		if v == nil {
 			return J{"t": "csigs", "xs": xs, "nilslice": true}
@@ -321,52 +317,57 @@ func projectPairs(m map[any]any) []any {
 	return out
 }
 
+// full projections (with retained raw bytes), free of JSON null: nil-ness is carried by flags
 func projectBucket(m map[any]any) any {
 	if m == nil {
-		return nil
+		return []any{}
 	}
-	return projectPairs(m)
+	ps := projectPairs(m)
+	if ps == nil {
+		return []any{}
+	}
+	return ps
 }
 
 func rawJ(b []byte) any {
 	if b == nil {
-		return nil
+		return []int{}
 	}
 	return ints(b)
 }
 
 func projectHeaders(h cose.Headers) J {
-	return J{"P": projectBucket(h.Protected), "U": projectBucket(h.Unprotected), "rawP": rawJ(h.RawProtected), "rawU": rawJ(h.RawUnprotected)}
+	return J{"P": projectBucket(h.Protected), "Pnil": h.Protected == nil, "U": projectBucket(h.Unprotected), "Unil": h.Unprotected == nil,
+		"rawP": rawJ(h.RawProtected), "rawPnil": h.RawProtected == nil, "rawU": rawJ(h.RawUnprotected), "rawUnil": h.RawUnprotected == nil}
 }
 
 func projectSig(s *cose.Signature) J {
 	if s == nil {
-		return nil
+		return J{"nilptr": true}
 	}
 	j := projectHeaders(s.Headers)
 	j["sig"] = rawJ(s.Signature)
+	j["signil"] = s.Signature == nil
 	return j
 }
 
 func projectSign1(m *cose.Sign1Message) J {
 	j := projectHeaders(m.Headers)
-	j["payload"] = rawJ(m.Payload)
+	j["payload"] = payloadJ(m.Payload)
 	j["sig"] = rawJ(m.Signature)
+	j["signil"] = m.Signature == nil
 	return j
 }
 
 func projectSign(m *cose.SignMessage) J {
 	j := projectHeaders(m.Headers)
-	j["payload"] = rawJ(m.Payload)
-	if m.Signatures == nil {
-		j["sigs"] = nil
-	} else {
-		xs := make([]any, len(m.Signatures))
-		for i, s := range m.Signatures {
-			xs[i] = projectSig(s)
-		}
-		j["sigs"] = xs
+	j["payload"] = payloadJ(m.Payload)
+	xs := make([]any, len(m.Signatures))
+	for i, s := range m.Signatures {
+		xs[i] = projectSig(s)
 	}
+	j["sigs"] = xs
+	j["sigsnil"] = m.Signatures == nil
 	return j
 }
 
@@ -401,7 +402,7 @@ func stripRaw(x any) any {
 	case J:
 		out := J{}
 		for k, e := range v {
-			if k == "rawP" || k == "rawU" {
+			if k == "rawP" || k == "rawU" || k == "rawPnil" || k == "rawUnil" || k == "Pnil" || k == "Unil" || k == "signil" {
 				continue
 			}
 			if e == nil {
